@@ -95,65 +95,7 @@ func genC09(tier string, r *rng, emit func(string)) {
 			emit(fmt.Sprintf("prog %s %s", dt, c))
 		}
 	}
-	// the general contraction branch of tensor.Dot (an operand of rank >= 3, or a vector/matrix
-	// against one): a's last axis against b's second-to-last; fresh result, reuse destinations of the
-	// product's shape / another shape of the same size / a view of a bigger tensor / too small / too
-	// big, an incr destination (ignored by this branch: a finding), lazily transposed operands,
-	// misfitting extents (refused), and the same operands read afterwards
-	for _, dt := range []string{"f64", "f32"} {
-		for _, pr := range [][3]string{
-			{"2,3,4", "4", "2,3"}, {"2,3,4", "4,2", "2,3,2"}, {"2,3,2", "2,2,3", "2,3,2,3"}, {"3", "2,3,2", "2,2"},
-			{"2,3", "2,3,2", "2,2,2"}, {"2,1,3", "3,1", "2,1,1"}, {"1,2,3", "1,3,2", "1,2,1,2"}, {"2,2,2,2", "2", "2,2,2"},
-			{"2,3,4", "3", ""}, {"2,3,4", "3,2", ""}, {"3", "2,2,2", ""},
-		} {
-			a, b, rs := pr[0], pr[1], pr[2]
-			for _, ta := range []string{"", ";T:0:_", ";T:1:_", ";slice:0:_"} {
-				ia, ib, next := 0, 1, 2
-				pre := fmt.Sprintf("new:rm:%s:1;new:rm:%s:2", a, b)
-				if ta == ";slice:0:_" {
-					// operands that are full-range views of their parents
-					pre += ";slice:0:_;slice:1:_"
-					ia, ib, next = 2, 3, 4
-				} else if ta != "" {
-					if (ta == ";T:0:_" && len(a) < 3) || (ta == ";T:1:_" && len(b) < 3) || rs == "" {
-						continue
-					}
-					// a lazily transposed operand changes the extents: only square-ish pairs stay well formed,
-					// the others exercise the refusal
-					pre += ta
-				}
-				emit(fmt.Sprintf("prog %s %s;dot:%d:%d:safe", dt, pre, ia, ib))
-				emit(fmt.Sprintf("prog %s %s;dot:%d:%d:safe;bin:add:%d:%d:safe", dt, pre, ia, ib, ia, ia))
-				if rs == "" || ta == ";T:0:_" || ta == ";T:1:_" {
-					continue
-				}
-				n := 1
-				for _, d := range strings.Split(rs, ",") {
-					n *= atoi(d)
-				}
-				emit(fmt.Sprintf("prog %s %s;new:rm:%s:50;dot:%d:%d:reuse.%d", dt, pre, rs, ia, ib, next))
-				emit(fmt.Sprintf("prog %s %s;new:rm:%d:50;dot:%d:%d:reuse.%d", dt, pre, n, ia, ib, next))
-				emit(fmt.Sprintf("prog %s %s;new:rm:%d:50;slice:%d:1.%d.1;dot:%d:%d:reuse.%d", dt, pre, n+2, next, n+1, ia, ib, next+1))
-				emit(fmt.Sprintf("prog %s %s;new:rm:%d:50;slice:%d:0.%d.2;dot:%d:%d:reuse.%d", dt, pre, 2*n, next, 2*n, ia, ib, next+1))
-				emit(fmt.Sprintf("prog %s %s;new:rm:%d,2:50;slice:%d:_/1.2.0;dot:%d:%d:reuse.%d", dt, pre, n, next, ia, ib, next+1))
-				emit(fmt.Sprintf("prog %s %s;new:rm:%d:50;dot:%d:%d:reuse.%d", dt, pre, n+1, ia, ib, next))
-				emit(fmt.Sprintf("prog %s %s;new:rm:%d:50;dot:%d:%d:reuse.%d", dt, pre, n-1, ia, ib, next))
-				emit(fmt.Sprintf("prog %s %s;new:rm:%s:50;dot:%d:%d:incr.%d", dt, pre, rs, ia, ib, next))
-				// both options: the product in the reuse tensor, added into the increment tensor; then
-				// allocations that would pick up a struct handed to the pool twice
-				emit(fmt.Sprintf("prog %s %s;new:rm:%s:50;new:rm:%s:70;dot:%d:%d:both.%d.%d;new:rm:2:0;slice:%d:0.1.1;new:rm:3:0", dt, pre, rs, rs, ia, ib, next, next+1, next+2))
-				if ta == "" {
-					// column-major operands and destinations
-					cpre := strings.Replace(pre, "new:rm:", "new:cm:", -1)
-					emit(fmt.Sprintf("prog %s %s;dot:0:1:safe", dt, cpre))
-					emit(fmt.Sprintf("prog %s %s;new:rm:%s:50;dot:0:1:reuse.2", dt, cpre, rs))
-					emit(fmt.Sprintf("prog %s %s;new:cm:%s:50;dot:0:1:reuse.2", dt, cpre, rs))
-					emit(fmt.Sprintf("prog %s %s;new:cm:%s:50;dot:0:1:reuse.2", dt, pre, rs))
-				}
-				emit(fmt.Sprintf("prog %s %s;new:rm:%s:50;dot:%d:%d:reuse.%d;dot:%d:%d:reuse.%d;bin:add:%d:%d:safe", dt, pre, rs, ia, ib, next, ia, ib, next, next, next))
-			}
-		}
-	}
+	dotNdCases(emit)
 	// inner dimensions and lengths around the block sizes of unrolled / vectorised loops
 	for _, dt := range []string{"f64", "f32"} {
 		for _, k := range []int{1, 2, 3, 4, 5, 7, 8, 9, 15, 16, 17, 31, 32, 33} {
@@ -375,6 +317,69 @@ func refusedProducts(emit func(string)) {
 		} {
 			emit(fmt.Sprintf("prog %s %s", dt, c))
 			emit(fmt.Sprintf("prog %s %s;at:0:1,1;clone:0;T:0:_;at:0:1,1", dt, c))
+		}
+	}
+}
+
+// dotNdCases: see genC09 (shared with C19: products handed to the pool, destinations, later allocations)
+func dotNdCases(emit func(string)) {
+	// the general contraction branch of tensor.Dot (an operand of rank >= 3, or a vector/matrix
+	// against one): a's last axis against b's second-to-last; fresh result, reuse destinations of the
+	// product's shape / another shape of the same size / a view of a bigger tensor / too small / too
+	// big, an incr destination (ignored by this branch: a finding), lazily transposed operands,
+	// misfitting extents (refused), and the same operands read afterwards
+	for _, dt := range []string{"f64", "f32"} {
+		for _, pr := range [][3]string{
+			{"2,3,4", "4", "2,3"}, {"2,3,4", "4,2", "2,3,2"}, {"2,3,2", "2,2,3", "2,3,2,3"}, {"3", "2,3,2", "2,2"},
+			{"2,3", "2,3,2", "2,2,2"}, {"2,1,3", "3,1", "2,1,1"}, {"1,2,3", "1,3,2", "1,2,1,2"}, {"2,2,2,2", "2", "2,2,2"},
+			{"2,3,4", "3", ""}, {"2,3,4", "3,2", ""}, {"3", "2,2,2", ""},
+		} {
+			a, b, rs := pr[0], pr[1], pr[2]
+			for _, ta := range []string{"", ";T:0:_", ";T:1:_", ";slice:0:_"} {
+				ia, ib, next := 0, 1, 2
+				pre := fmt.Sprintf("new:rm:%s:1;new:rm:%s:2", a, b)
+				if ta == ";slice:0:_" {
+					// operands that are full-range views of their parents
+					pre += ";slice:0:_;slice:1:_"
+					ia, ib, next = 2, 3, 4
+				} else if ta != "" {
+					if (ta == ";T:0:_" && len(a) < 3) || (ta == ";T:1:_" && len(b) < 3) || rs == "" {
+						continue
+					}
+					// a lazily transposed operand changes the extents: only square-ish pairs stay well formed,
+					// the others exercise the refusal
+					pre += ta
+				}
+				emit(fmt.Sprintf("prog %s %s;dot:%d:%d:safe", dt, pre, ia, ib))
+				emit(fmt.Sprintf("prog %s %s;dot:%d:%d:safe;bin:add:%d:%d:safe", dt, pre, ia, ib, ia, ia))
+				if rs == "" || ta == ";T:0:_" || ta == ";T:1:_" {
+					continue
+				}
+				n := 1
+				for _, d := range strings.Split(rs, ",") {
+					n *= atoi(d)
+				}
+				emit(fmt.Sprintf("prog %s %s;new:rm:%s:50;dot:%d:%d:reuse.%d", dt, pre, rs, ia, ib, next))
+				emit(fmt.Sprintf("prog %s %s;new:rm:%d:50;dot:%d:%d:reuse.%d", dt, pre, n, ia, ib, next))
+				emit(fmt.Sprintf("prog %s %s;new:rm:%d:50;slice:%d:1.%d.1;dot:%d:%d:reuse.%d", dt, pre, n+2, next, n+1, ia, ib, next+1))
+				emit(fmt.Sprintf("prog %s %s;new:rm:%d:50;slice:%d:0.%d.2;dot:%d:%d:reuse.%d", dt, pre, 2*n, next, 2*n, ia, ib, next+1))
+				emit(fmt.Sprintf("prog %s %s;new:rm:%d,2:50;slice:%d:_/1.2.0;dot:%d:%d:reuse.%d", dt, pre, n, next, ia, ib, next+1))
+				emit(fmt.Sprintf("prog %s %s;new:rm:%d:50;dot:%d:%d:reuse.%d", dt, pre, n+1, ia, ib, next))
+				emit(fmt.Sprintf("prog %s %s;new:rm:%d:50;dot:%d:%d:reuse.%d", dt, pre, n-1, ia, ib, next))
+				emit(fmt.Sprintf("prog %s %s;new:rm:%s:50;dot:%d:%d:incr.%d", dt, pre, rs, ia, ib, next))
+				// both options: the product in the reuse tensor, added into the increment tensor; then
+				// allocations that would pick up a struct handed to the pool twice
+				emit(fmt.Sprintf("prog %s %s;new:rm:%s:50;new:rm:%s:70;dot:%d:%d:both.%d.%d;new:rm:2:0;slice:%d:0.1.1;new:rm:3:0", dt, pre, rs, rs, ia, ib, next, next+1, next+2))
+				if ta == "" {
+					// column-major operands and destinations
+					cpre := strings.Replace(pre, "new:rm:", "new:cm:", -1)
+					emit(fmt.Sprintf("prog %s %s;dot:0:1:safe", dt, cpre))
+					emit(fmt.Sprintf("prog %s %s;new:rm:%s:50;dot:0:1:reuse.2", dt, cpre, rs))
+					emit(fmt.Sprintf("prog %s %s;new:cm:%s:50;dot:0:1:reuse.2", dt, cpre, rs))
+					emit(fmt.Sprintf("prog %s %s;new:cm:%s:50;dot:0:1:reuse.2", dt, pre, rs))
+				}
+				emit(fmt.Sprintf("prog %s %s;new:rm:%s:50;dot:%d:%d:reuse.%d;dot:%d:%d:reuse.%d;bin:add:%d:%d:safe", dt, pre, rs, ia, ib, next, ia, ib, next, next, next))
+			}
 		}
 	}
 }
